@@ -162,7 +162,7 @@ func init() {
 	registry["C04"] = func() Check {
 		return &ProcCheck{Prop: "C04", Scenarios: "CrashScenarios", MaxCrashes: 1,
 			IdealInvs:    []string{"NeverBricked", "AllOrNothing"},
-			Only:         []string{"C04_all_or_nothing"},
+			Only:         []string{"C04_all_or_nothing", "C04_stays"},
 			MaxRunsQuick: 1500, Level: "fault_enumeration"}
 	}
 }
